@@ -1,0 +1,24 @@
+//go:build verif
+
+package lnd
+
+import (
+	"context"
+
+	"github.com/elementsproject/peerswap/onchain"
+	"github.com/lightningnetwork/lnd/lnrpc"
+	"github.com/lightningnetwork/lnd/lnrpc/walletrpc"
+)
+
+// VerifNewWalletClient builds a Client that has exactly the fields the on-chain
+// wallet adapter (lnd_wallet.go) uses, over injected gRPC client interfaces.
+// Verification harness only.
+func VerifNewWalletClient(ctx context.Context, lndClient lnrpc.LightningClient, walletClient walletrpc.WalletKitClient, chain *onchain.BitcoinOnChain) *Client {
+	return &Client{
+		lndClient:            lndClient,
+		walletClient:         walletClient,
+		bitcoinOnChain:       chain,
+		ctx:                  ctx,
+		invoiceSubscriptions: make(map[string]interface{}),
+	}
+}
